@@ -1,21 +1,44 @@
 #!/bin/bash
 # MANIFEST.setup_cmd: build, offline and from files on disk only, everything the
 # registered checks need (proof modules + native drivers of the claimed properties).
-set -e
+#
+# 1. the translated model parts (lean/CogentModel/Gen/*.lean) are regenerated from
+#    /repo's CURRENT source first, so that the build never depends on whatever copy
+#    of a generated file happens to be committed;
+# 2. a proof that does not check is NOT a setup failure: every check rebuilds its own
+#    targets and reports a broken proof itself (VIOLATION … no-failing-input-found or
+#    a concrete failing input), so setup only warms the build and exits 0 as long as
+#    the toolchain runs.
 cd "$(dirname "$0")"
 export PYTHONPATH="$PWD"
-targets=$(/venv/bin/python - <<'PY'
-import json, importlib
+export PYTHONDONTWRITEBYTECODE=1
+targets=$(/venv/bin/python -W ignore - <<'PY'
+import json, importlib, sys, traceback
+from harness import common
 man = json.load(open("MANIFEST.json"))
 t = []
 for c in man["checks"]:
     m = importlib.import_module("harness." + c["property_id"].lower())
+    if hasattr(m, "generate"):
+        ctx = common.Ctx(c["property_id"], "quick", 0)
+        try:
+            probs = m.generate(ctx)
+            if probs:
+                print(f"setup: translator problems for {c['property_id']}: {probs}", file=sys.stderr)
+        except Exception:
+            traceback.print_exc()
+        finally:
+            ctx.cleanup()
     t += list(getattr(m, "LEAN_TARGETS", []))
     if getattr(m, "DRIVER", None):
         t.append(m.DRIVER)
 print(" ".join(dict.fromkeys(t)))
 PY
 )
+command -v lake >/dev/null || { echo "setup: lake not on PATH" >&2; exit 1; }
 cd lean
 echo "building: $targets"
-lake build $targets
+if ! lake build $targets; then
+    echo "setup: WARNING some Lean targets did not build; the checks of the affected properties will report it" >&2
+fi
+exit 0
